@@ -21,6 +21,7 @@ def run(c):
     r2(c)
     r3(c)
     r4(c)
+    r5(c)
 
 
 def r1(c):
@@ -216,3 +217,58 @@ def r4(c):
         c.check("C17.R4", rec, f"{m.rel}:{ln}", f"default-block:{row}", f"default block `{row}` has nested defaults {chs}, but implicit.config inserts it as `{norm(v)}`: the side that gets the block "
                 "implicitly lacks the nested default, the side that has the block explicitly gets it — a command for a line that is in neither text; completing twice is not a fixed point",
                 key_text="empty-block")
+
+
+def r5(c):
+    repo = c.repo
+    c.rule("C17.R5", "the implicit rules are the device's own: compile_rules(device) compiles _implicit_tree(device) for the device it is asked about; if the result is memoised "
+                     "(module-level table or cache decorator), the memo key covers every attribute of the device that _implicit_tree reads (device.hw, device.tags, ...) — a key "
+                     "that is narrower hands one device the defaults of another")
+    m = repo.module(IMPLICIT)
+    fn = repo.func(IMPLICIT, "compile_rules", canon=False)
+    it = repo.func(IMPLICIT, "_implicit_tree", canon=False)
+    c.count("functions", 2)
+    dev = fn.args.args[0].arg
+    idev = it.args.args[0].arg
+    reads = set()
+    for n in ast.walk(it):
+        if isinstance(n, ast.Attribute) and isinstance(n.value, ast.Name) and n.value.id == idev:
+            reads.add(n.attr)
+        elif isinstance(n, ast.Call) and any(isinstance(a, ast.Name) and a.id == idev for a in n.args):
+            reads.add("*")   # the whole device is handed on
+    c.analysed["implicit_tree_reads"] = sorted(reads)
+    if len(reads) < 2:
+        raise AnchorError("_implicit_tree: expected it to read at least device.hw and device.tags")
+    from sa.cachealias import is_memoised
+    keys = []
+    module_tables = {t.id for st in m.tree.body if isinstance(st, (ast.Assign, ast.AnnAssign)) for t in ([st.target] if isinstance(st, ast.AnnAssign) else st.targets) if isinstance(t, ast.Name)}
+    for n in ast.walk(fn):
+        if isinstance(n, ast.Subscript) and isinstance(n.value, ast.Name) and n.value.id in module_tables:
+            keys.append(n.slice)
+        elif isinstance(n, ast.Call) and isinstance(n.func, ast.Attribute) and n.func.attr in ("get", "setdefault") and isinstance(n.func.value, ast.Name) and n.func.value.id in module_tables and n.args:
+            keys.append(n.args[0])
+    pv = Provenance(fn)
+    if is_memoised(fn):
+        c.undecided("C17.R5", repo.loc(m, fn), "compile_rules/memo-key", "compile_rules is memoised by a cache decorator: whether the device's hash/eq cover what _implicit_tree reads must be confirmed by reading")
+        return
+    if not keys:
+        calls = [x for x in calls_in(fn) if call_name(x) == "_implicit_tree"]
+        ok = len(calls) == 1 and calls[0].args and norm(calls[0].args[0]) == dev
+        c.check("C17.R5", ok, repo.loc(m, fn), "compile_rules/own-device", "compile_rules does not compile _implicit_tree(<its device>)", key_text="own-device")
+        return
+    for k in keys:
+        kk = pv.resolve_alias(k)
+        covered = set()
+        whole = False
+        for x in ast.walk(kk):
+            if isinstance(x, ast.Name) and x.id == dev:
+                p_ = getattr(x, "_parent", None)
+                if isinstance(p_, ast.Attribute) and p_.value is x:
+                    covered.add(p_.attr)
+                else:
+                    whole = True
+        miss = sorted(reads - covered - {"*"}) if not whole else []
+        if "*" in reads and not whole:
+            miss.append("(whole device handed to a helper)")
+        c.check("C17.R5", not miss, repo.loc(m, k), "compile_rules/memo-key", f"compiled implicit rules are memoised under `{norm(kk)[:50]}`, but _implicit_tree also reads device.{', device.'.join(miss)}: "
+                "two devices that agree on the key and differ there (same model, another role tag) share one rule set — the second gets defaults that are not its own", key_text="memo-key")
